@@ -101,8 +101,8 @@ func setPropsFromMap(cfg *Config, updates map[string]any) (stagedProps []stagedP
 	return setPropsFromMapRecursive(reflect.ValueOf(cfg), updates)
 }
 
-// Updates are applied one at a time: an update stages, commits, verifies and saves the whole
-// configuration (and may roll it back), none of which can be shared with another update.
+// Updates are applied one at a time: an update stages, commits, verifies and saves a whole
+// configuration, none of which can be shared with another update.
 var updateMu sync.Mutex
 
 func UpdatePartialFromConfig(cfg *Config, updates map[string]any) (UpdateStatus, error) {
@@ -116,11 +116,46 @@ func UpdatePartialFromConfig(cfg *Config, updates map[string]any) (UpdateStatus,
 		return UpdateStatusFailed, nil
 	}
 
+	// The update is first carried out on a copy of the configuration: only what has been verified and
+	// saved there is taken over. The running settings are read without a lock (by the janitor's cycles,
+	// by every request), so a value that ends up rejected must never be in them, not even for a moment.
+	candidate, err := cfg.clone()
+	if err != nil {
+		slog.Error("Failed to copy the config", "error", err)
+		return UpdateStatusFailed, fmt.Errorf("%w: %v", ErrUpdateFailed, err)
+	}
+
 	slog.Debug("Setting properties from JSON map...", "updates", updates)
+	candidateProps, err := setPropsFromMapRecursive(reflect.ValueOf(candidate), updates)
+	if err != nil {
+		slog.Error("Failed to set properties from map", "error", err)
+		return UpdateStatusFailed, fmt.Errorf("%w: %v", ErrUpdateFailed, err)
+	}
+	for _, prop := range candidateProps {
+		prop.CommitStaged()
+	}
+
+	if err := candidate.verify(); err != nil {
+		slog.Error("Updated config failed verification", "error", err)
+		return UpdateStatusFailed, fmt.Errorf("%w: %v", ErrUpdateFailed, err)
+	}
+
+	// The file leaves out command-line overwrites, so it can differ from what was just verified:
+	// it has to be a configuration the next start can load on its own.
+	if err := candidate.verifySaved(); err != nil {
+		slog.Error("Updated config would save a file that fails verification", "error", err)
+		return UpdateStatusFailed, fmt.Errorf("%w: %v", ErrUpdateFailed, err)
+	}
+
+	if err := candidate.persist(); err != nil {
+		slog.Error("Failed to persist updated config", "error", err)
+		return UpdateStatusFailed, fmt.Errorf("%w: %v", ErrUpdateFailed, err)
+	}
+
+	// Accepted and saved: the same update now goes into the running configuration.
 	stagedProps, err := setPropsFromMapRecursive(reflect.ValueOf(cfg), updates)
 	if err != nil {
 		slog.Error("Failed to set properties from map", "error", err)
-		// Nothing has been committed yet: drop what the earlier keys of the document staged.
 		for _, prop := range stagedProps {
 			prop.DiscardStaged()
 		}
@@ -131,34 +166,6 @@ func UpdatePartialFromConfig(cfg *Config, updates map[string]any) (UpdateStatus,
 	for _, prop := range stagedProps {
 		slog.Debug("Committing property...", "prop", prop)
 		prop.CommitStaged()
-	}
-
-	// A rejected or failed update must leave everything as it was: put the old values back.
-	// Subscribers have not been told anything yet.
-	rollback := func() {
-		for _, prop := range stagedProps {
-			prop.RollbackCommitted()
-		}
-	}
-
-	if err := cfg.verify(); err != nil {
-		slog.Error("Updated config failed verification", "error", err)
-		rollback()
-		return UpdateStatusFailed, fmt.Errorf("%w: %v", ErrUpdateFailed, err)
-	}
-
-	// The file leaves out command-line overwrites, so it can differ from what was just verified:
-	// it has to be a configuration the next start can load on its own.
-	if err := cfg.verifySaved(); err != nil {
-		slog.Error("Updated config would save a file that fails verification", "error", err)
-		rollback()
-		return UpdateStatusFailed, fmt.Errorf("%w: %v", ErrUpdateFailed, err)
-	}
-
-	if err := cfg.persist(); err != nil {
-		slog.Error("Failed to persist updated config", "error", err)
-		rollback()
-		return UpdateStatusFailed, fmt.Errorf("%w: %v", ErrUpdateFailed, err)
 	}
 
 	// The update is verified and saved: now the running components get to know about it.
